@@ -12,12 +12,16 @@ import (
 	"sort"
 	"strings"
 	"sync"
+	"sync/atomic"
 	"time"
 
 	te "github.com/ricochet1k/termemu"
 )
 
+const specialWatchdog = 90 * time.Second
+
 type specialCtx struct {
+	outPath   string
 	prop      string
 	seed      int64
 	n         int
@@ -121,7 +125,7 @@ func (c *specialCtx) finish(outPath string) int {
 func runSpecial(name, prop string, seed int64, n int, drvPath, widths, outPath, replayDir string, known []knownFinding, workers int) int {
 	start := time.Now()
 	c := &specialCtx{prop: prop, seed: seed, n: n, drvPath: drvPath, widths: widths, replayDir: replayDir, known: known,
-		workers: workers, knownHit: map[string]int{}, sigs: map[string]bool{}}
+		workers: workers, knownHit: map[string]int{}, sigs: map[string]bool{}, outPath: outPath}
 	c.st = stats{Property: prop, Profile: name, Seed: seed, ClassHist: map[string]int{}, TagHist: map[string]int{}, SizeHist: map[string]int{},
 		BufHist: map[string]int{}, ChunkHist: map[string]int{}, Foreign: map[string]int{}}
 	switch name {
@@ -159,8 +163,33 @@ func runSpecial(name, prop string, seed int64, n int, drvPath, widths, outPath, 
 func (c *specialCtx) parallel(n int, f func(i int, d *driver)) {
 	jobs := make(chan int, 256)
 	var wg sync.WaitGroup
+	// watchdog: an iteration that does not finish is a wedge of the implementation; it cannot be
+	// interrupted, so report it and end the process
+	started := make([]int64, c.workers)
+	current := make([]int64, c.workers)
+	stop := make(chan struct{})
+	defer close(stop)
+	go func() {
+		for {
+			select {
+			case <-stop:
+				return
+			case <-time.After(500 * time.Millisecond):
+			}
+			now := time.Now().UnixNano()
+			for w := range started {
+				if t0 := atomic.LoadInt64(&started[w]); t0 != 0 && now-t0 > int64(specialWatchdog) {
+					i := atomic.LoadInt64(&current[w])
+					c.violation("wedge", fmt.Sprintf("iteration %d of the %s check did not finish within %v (the implementation does not terminate on this input)", i, c.st.Profile, specialWatchdog),
+						map[string]any{"special": c.st.Profile, "iteration": i, "seed": c.seed})
+					os.Exit(c.finish(c.outPath))
+				}
+			}
+		}
+	}()
 	for w := 0; w < c.workers; w++ {
 		wg.Add(1)
+		w := w
 		go func() {
 			defer wg.Done()
 			d, err := startDriver(c.drvPath, c.widths)
@@ -170,7 +199,10 @@ func (c *specialCtx) parallel(n int, f func(i int, d *driver)) {
 			}
 			defer d.close()
 			for i := range jobs {
+				atomic.StoreInt64(&current[w], int64(i))
+				atomic.StoreInt64(&started[w], time.Now().UnixNano())
 				f(i, d)
+				atomic.StoreInt64(&started[w], 0)
 			}
 		}()
 	}
@@ -519,6 +551,7 @@ func finalOf(mode int, grid bool, w, h int, chunks [][]byte) (lines []string, re
 			events = append(events, e.s)
 		}
 	}
+	events = append(events, o.L) // total rows announced through ScrollLines
 	// frontend-visible effect of the geometric notifications: the shadow copy and last values
 	im.checkAPI(&snap, 0, "final", &bad)
 	return
@@ -843,8 +876,13 @@ func runCaseTrace(cs *Case, d *driver) trace {
 	resizes := 0
 	var evs []string
 	shadowBad := false
+	scrolledTotal := 0
 	record := func(tag string) {
 		o, _ := im.observe(true)
+		// rows announced through ScrollLines so far (must agree between the buffers)
+		var k int
+		fmt.Sscanf(o.L, "L %d", &k)
+		scrolledTotal += k
 		// notifications and replies accumulate (the buffers cut text into different steps)
 		if o.E != "E -" {
 			evs = append(evs, o.E[2:])
@@ -870,7 +908,7 @@ func runCaseTrace(cs *Case, d *driver) trace {
 		}
 		// the cursor position the frontend was last told (the buffers notify at different
 		// moments, but after the same input the last report must be the same)
-		o.V += lastCur
+		o.V += lastCur + fmt.Sprintf(" scrolled-off=%d", scrolledTotal)
 		ls := o.lines()
 		tr.obs = append(tr.obs, strings.Join(ls[1:], "\n")) // without the consumed count
 		tr.at = append(tr.at, resizes*1000000+im.consumed())
